@@ -6,6 +6,11 @@ ROOT = os.path.dirname(os.path.dirname(os.path.abspath(__file__)))
 
 # property id -> (engine, level category, technique, level text, level note, design ref)
 CHECKS = {
+    "C19": ("SEQ+ENUM", "model_checking",
+            "explicit-state exploration of builder programs (states merged on the serialized manifest) plus exhaustive file-count x tag-pattern grid, judged by a set model and an independent bit-mask reader",
+            "Every install/download builder program up to depth 8 (quick) / 11 (thorough) over 32 operations x 2 tags x 3 file slots from empty and from 7-file pre-states, states merged on the serialized manifest (a complete description of the builder; the hidden name->index map is probed before merging); every file count 0..=70 (thorough: 255/256/257/1023) x 7 tag patterns x 0..=3 tags x 16 formats, followed by add/remove_file at byte boundaries. Oracle: set model for every non-empty tag subset through all query APIs and size totals, and an independent reader written from the format description (MSB-first bit order, anchored on the repository's real CDN fixtures).",
+            "Trusted: the set model, the independent reader (self-checked on hand-assembled vectors and on real fixtures), and that distinct tag names make the serialized manifest a complete state description. Tag counts above 3 (thorough: 20) and programs deeper than the bound are not covered.",
+            "DESIGN.md §4 C19"),
     "C07": ("ENUM+SEQ", "fault_enumeration",
             "exhaustive enumeration of single-bit flips, byte substitutions, deletions and insertions inside the protected region of small artifacts; explicit-state exploration of put/corrupt/get histories on the validating cache",
             "For encoding-table pages, the archive-index footer, an LRU checkpoint file, update-section entries/pages and a saved .idx with pending updates, a local entry header and a V1 Ribbit response with a checksum line: every single-bit flip, every byte substitution (all 255 values for small artifacts), every suffix deletion, 1-byte deletion and 1-byte insertion inside the protected region is applied; accept(mutant) implies that no logical item differs from the original's. Every history <= depth 4/5 over put_validated / mismatching put / get_validated / corrupt-backing-file / reopen on ContentAddressedCache<DiskCache>: a validating get returns bytes only if their MD5 equals the key.",
